@@ -286,9 +286,13 @@ Proof.
 Qed.
 
 (* ================================================================== Poisson *)
-Lemma scal_R : forall a b : R, scal a b = a * b. Proof. reflexivity. Qed.
-Lemma plus_R : forall a b : R, plus a b = a + b. Proof. reflexivity. Qed.
-Lemma opp_R : forall a : R, Hierarchy.opp a = - a. Proof. reflexivity. Qed.
+Ltac rfix := try match goal with |- @eq _ ?a ?b => change (@eq R a b) end.
+(* Coquelicot's structure operations on R, back to the field operations (syntactic, by conversion) *)
+Ltac rsimp := repeat match goal with
+  | |- context [@scal _ _ ?a ?b] => change (@scal _ _ a b) with (Rmult a b)
+  | |- context [@plus _ ?a ?b] => change (@plus _ a b) with (Rplus a b)
+  | |- context [@Hierarchy.opp _ ?a] => change (@Hierarchy.opp _ a) with (Ropp a)
+  end; try match goal with |- @eq _ ?a ?b => change (@eq R a b) end.
 Lemma IZR_factZ : forall k, IZR (factZ k) = INR (fact k).
 Proof.
   induction k as [|k IH]; [reflexivity|].
@@ -342,7 +346,7 @@ Proof.
   replace (Rexp rate * Rexp (- rate)) with 1 in Hs by (rewrite <- exp_plus, Rplus_opp_r, exp_0; reflexivity).
   eapply is_series_ext; [|exact Hs]. intros n. cbv beta.
   destruct (poisson_pmf_closed_form n rate Hr) as [_ ->].
-  rewrite scal_R. rewrite (pow_n_pow rate n). unfold Rdiv; ring.
+  rsimp. rewrite <- (pow_n_pow rate n). reflexivity.
 Qed.
 
 (* the stated mean (= rate) is the first moment of the mass function *)
@@ -352,7 +356,7 @@ Proof.
   intros rate Hr. unfold poisson_mean.
   apply is_series_decr_1.
   match goal with |- is_series _ ?l => replace l with (scal rate 1) end.
-  2:{ rewrite scal_R, plus_R, opp_R. cbn [INR]. ring. }
+  2:{ rsimp. cbn [INR]. ring. }
   eapply is_series_ext; [| apply (is_series_scal_l rate _ _ (poisson_pmf_sums_to_one rate Hr))].
   intros n. cbv beta. rewrite poisson_pmf_S by assumption. reflexivity.
 Qed.
@@ -363,9 +367,9 @@ Proof.
   intros rate Hr.
   apply is_series_decr_1.
   match goal with |- is_series _ ?l => replace l with (scal rate rate) end.
-  2:{ rewrite scal_R, plus_R, opp_R. cbn [INR]. ring. }
+  2:{ rsimp. cbn [INR]. ring. }
   eapply is_series_ext; [| apply (is_series_scal_l rate _ _ (poisson_mean_matches_pmf rate Hr))].
-  intros n. cbv beta. rewrite scal_R.
+  intros n. cbv beta. rsimp.
   transitivity (INR n * (INR (S n) * poisson_pmf RN (S n) rate)); [rewrite poisson_pmf_S by assumption; ring | rewrite S_INR; ring].
 Qed.
 
@@ -380,15 +384,17 @@ Proof.
   pose proof (is_series_plus _ _ _ _ (is_series_plus _ _ _ _ H2 H1) H0) as H.
   unfold poisson_mean in H.
   match type of H with is_series _ ?l => replace l with rate in H end.
-  2:{ rewrite !plus_R, !scal_R. ring. }
+  2:{ rsimp. ring. }
   eapply is_series_ext; [|exact H]. intros n. cbv beta.
-  rewrite !plus_R, !scal_R. ring.
+  rsimp. ring.
 Qed.
 
 (* ---- cdf ---- *)
 Lemma tsum_scal : forall (c : R) (f : nat -> R) l, c * tsum RN (map f l) = tsum RN (map (fun j => c * f j) l).
 Proof.
-  intros c f l. induction l as [|a l IH]; cbn [map tsum]; rn_simpl; [ring|]. rewrite <- IH. ring.
+  intros c f l. induction l as [|a l IH]; cbn [map tsum]; rn_simpl.
+  - apply Rmult_0_r.
+  - rewrite <- IH. apply Rmult_plus_distr_l.
 Qed.
 
 Lemma pown_pow : forall (x : R) j, pown RN x j = x ^ j.
@@ -397,11 +403,11 @@ Proof. intros x j. induction j as [|j IH]; [reflexivity|]. cbn [pown Rpow_def.po
 Lemma tsum_seq_sum_n : forall (a : nat -> R) n, tsum RN (map a (seq 0 (S n))) = sum_n a n.
 Proof.
   intros a n. induction n as [|n IH].
-  - cbn [seq map tsum]. rn_simpl. rewrite sum_O. ring.
+  - cbn [seq map tsum]. rn_simpl. rewrite sum_O. rfix; ring.
   - rewrite seq_S, map_app. cbn [map plus].
     assert (App : forall l1 l2 : list R, tsum RN (l1 ++ l2) = tsum RN l1 + tsum RN l2).
-    { induction l1 as [|h l1 IH1]; intros l2; cbn [app tsum]; rn_simpl; [ring|]. rewrite IH1. ring. }
-    rewrite App, IH, sum_Sn, plus_R. cbn [tsum]. rn_simpl. ring.
+    { induction l1 as [|h l1 IH1]; intros l2; cbn [app tsum]; rn_simpl; [symmetry; apply Rplus_0_l|]. rewrite IH1. symmetry; apply Rplus_assoc. }
+    rewrite App, IH, sum_Sn. rsimp. cbn [tsum]. rn_simpl. rfix. change (0 + S n)%nat with (S n). ring.
 Qed.
 
 (* cdf(s) (through the closed form of gammaincc at an integer first argument) is the partial sum of the mass
@@ -437,9 +443,9 @@ Proof.
   { apply Z2Nat.inj_le; [apply Zfloor_lub; lra | apply Zfloor_lub; lra | apply Zfloor_le; assumption]. }
   assert (Hpos : forall n, 0 < sum_n (fun j => poisson_pmf RN j rate) n).
   { induction n as [|n IH]; [rewrite sum_O; apply poisson_pmf_pos; assumption|].
-    rewrite sum_Sn, plus_R. pose proof (poisson_pmf_pos (S n) rate Hr). lra. }
+    rewrite sum_Sn. rsimp. pose proof (poisson_pmf_pos (S n) rate Hr). lra. }
   split; [apply Hpos|].
-  induction Hle as [|m Hm IH]; [lra|]. rewrite sum_Sn, plus_R.
+  induction Hle as [|m Hm IH]; [lra|]. rewrite sum_Sn. rsimp.
   pose proof (poisson_pmf_pos (S m) rate Hr). lra.
 Qed.
 
